@@ -3,6 +3,9 @@
 
 Exit 0: property held on everything analysed (KNOWN-FINDING lines may be printed).
 Exit 1: `VIOLATION property=<id> replay=<path>` printed for every new finding.
+--replay <file>: re-analyse the current tree (same tier) and report only whether the finding recorded
+        in <file> (rule + key) is still produced: exit 1 with the VIOLATION line if so, exit 0 if not;
+        evidence and replay files are left untouched.
 Exit 2: the checker itself is broken (CHECKER-ERROR: floor not met, control silent, build of the
         analysed tree failed where that is not itself the property).
 """
@@ -32,6 +35,19 @@ def main():
         print("CHECKER-ERROR property=%s no check implemented" % prop)
         return 2
     run = report.Run(prop, args.tier, LEVELS.get(prop, "other"), argv=["python3", "check.py", prop, "--tier", args.tier])
+    if args.replay:
+        # re-analyse the current tree and report whether the recorded finding is still produced
+        import json
+
+        try:
+            rec = json.load(open(args.replay))
+        except Exception as e:
+            print("CHECKER-ERROR property=%s cannot read replay file %s: %s" % (prop, args.replay, e))
+            return 2
+        if rec.get("property") != prop:
+            print("CHECKER-ERROR property=%s replay file belongs to %s" % (prop, rec.get("property")))
+            return 2
+        run.replay = (rec.get("rule"), rec.get("key"), args.replay)
     try:
         mod.check(run, args.tier)
     except report.CheckerError as e:
